@@ -107,7 +107,8 @@ def families(tier):
                 'alloc-put-1.38',
                 # writes that also change who owns / what type the consumer is
                 'alloc-put-1.38-newtype', 'alloc-put-newproj',
-                'alloc-post-2c-1.38-newattrs', 'reshape-move-1.38-newattrs'}
+                'alloc-post-2c-1.38-newattrs', 'reshape-move-1.38-newattrs',
+                'class-put-new', 'trait-put-new'}
         shapes = [s for s in shapes if s.name in keep]
     return [make_family(s) for s in shapes] + provider_families()
 
